@@ -1,6 +1,8 @@
 """C06 Proto3 defaults and field presence are encoded and recovered correctly."""
 from .. import gen, hist, msgev
 
+from ..common import MachineryError
+
 LEVEL = "model_checking"
 
 
@@ -34,6 +36,12 @@ def run(ctx):
     quick = ctx.tier == "quick"
     from .. import mo
     mo.model_check(ctx, ['FreshIsEmpty', 'ImplicitDefaultSkipped', 'ExplicitPresenceEmitted', 'SubmessageEmittedIffSow'], [], quick)
+    # the same statement with the bare presence flag instead of what serialized_on_wire() reports must FAIL in the model (a
+    # sub-message filled only in place): the model does contain the situation that was the defect repaired in 70e0ad2
+    neg = ctx.mc("MessageObj", mo.cfg([], ["SubmessageEmittedIffRawFlag"], 4), name="MessageObj_rawflag_neg", allow_violation=True, coverage=False)
+    if not neg.violated:
+        raise MachineryError("negative control: SubmessageEmittedIffRawFlag should be violated (by AAppendIn) in spec/MessageObj.tla")
+    ctx.notes["negative_control"] = "SubmessageEmittedIffRawFlag (bare _serialized_on_wire) is violated in the model by an in-place append, as expected"
     mo.replay(ctx, 160 if quick else 4000)
     ctx.rule = ("matrix: every field of the Wide family x {never set, type default, non-default, fresh empty sub-message} x {constructor, "
                 "attribute assignment, parse, from_dict class/instance form} alone, plus random histories (combinations); after every call: "
